@@ -47,11 +47,19 @@ class _NonBlocking:
         self.s = s
 
     def __enter__(self):
-        self.s._nonblock += 1
+        s = self.s
+        self.t = s.current
+        if self.t is None:
+            s._nonblock += 1
+        else:
+            self.t.nonblock += 1
         return self
 
     def __exit__(self, *a):
-        self.s._nonblock -= 1
+        if self.t is None:
+            self.s._nonblock -= 1
+        else:
+            self.t.nonblock -= 1
         return False
 
 
@@ -73,7 +81,7 @@ class Decision:
 class CThread:
     __slots__ = ('id', 'name', 'baton', 'state', 'op_kind', 'op_res',
                  'op_enabled', 'idle', 'fn', 'real', 'interrupt',
-                 'interruptible', 'exc', 'role', 'wake', 'result', 'prio')
+                 'interruptible', 'exc', 'role', 'wake', 'result', 'prio', 'nonblock')
 
     def __init__(self, tid, name, fn, role=None, prio=0):
         self.id = tid
@@ -94,6 +102,7 @@ class CThread:
         self.wake = None
         self.result = None
         self.prio = prio
+        self.nonblock = 0
 
     def __repr__(self):
         return f'<T{self.id}:{self.name}>'
@@ -146,7 +155,7 @@ class Sched:
         return f'{prefix}{self._next_obj_id}'
 
     # ------------------------------------------------------------------ log
-    def emit(self, kind, **payload):
+    def emit(self, kind, /, **payload):
         if self.aborting:
             return
         cur = self.current
@@ -290,7 +299,8 @@ class Sched:
             raise AbortExecution()
         self.step += 1
         self.points += 1
-        if self._nonblock and enabled is not None and not enabled():
+        if enabled is not None and (self._nonblock or (
+                self.current is not None and self.current.nonblock)) and not enabled():
             raise WouldBlock(f'{kind} on {res}')
         if self.inline:
             if enabled is not None and not enabled():
